@@ -145,6 +145,11 @@ def linear_harness(cname, Dn, K, mode):
                 return
             y, ld, Wt, L = value
             W = P(Wt); bias = P(t.bias)
+            from tsv.terms import base_symbols
+            xid = {px[idx].get_id(): idx for idx in np.ndindex(*px.shape)}
+            rows = all(xid[s_][0] == b for b in range(B) for t_ in list(P(y)[b]) + [P(ld)[b]] for s_ in base_symbols(t_) if s_ in xid)
+            ensure(h, ctx, "C12.row-independent", z3.BoolVal(rows))
+            ensure(h, ctx, "C13.no-write", z3.BoolVal(not [w for w in ctx.writes if w[0] != "fresh"]))
             for b in range(B):
                 for i in range(Dn):
                     ensure(h, ctx, "C11.forward-is-affine", P(y)[b, i] == sum((W[i, k] * px[b, k] for k in range(Dn)), rv(0)) + bias[i])
